@@ -49,10 +49,13 @@ int main(int argc, char** argv) {
             if (z.size() != n) { printf("MISMATCH %s size %zu expected %zu\n", nm, z.size(), n); bad++; return; }
             for (size_t i = 0; i < n; i++) { impedance_t v = z[i];
                 if (i > n / 2 && (v.real() != 0 || v.imag() != 0)) { if (bad < 8) printf("MISMATCH %s sample %zu above n/2 is (%g,%g)\n", nm, i, v.real(), v.imag()); bad++; }
+                if (!std::isfinite(v.real()) || !std::isfinite(v.imag())) { if (bad < 8) printf("MISMATCH %s sample %zu is not finite: (%g,%g)\n", nm, i, v.real(), v.imag()); bad++; }
                 if (!(v.real() >= 0)) { if (bad < 8) printf("MISMATCH %s sample %zu real part %g\n", nm, i, v.real()); bad++; } } };
         chk("FreeSpaceCSR", FreeSpaceCSR(n, 9e6, 1e12));
         chk("ResistiveWall", ResistiveWall(n, 9e6, 1e12, 33.0, 1e6, 0.0, 0.015));
         chk("ConstImpedance", ConstImpedance(n, 1e12, impedance_t(100, 20)));
+        // parallel plates: narrow and wide gaps relative to the frequency resolution (cut-off of the lowest mode below the first sample)
+        for (double gap : {1e-4, 3e-3, 0.03, 0.2, 2.0}) chk("ParallelPlatesCSR", ParallelPlatesCSR(n, 9e6, 1e12, gap));
         Impedance sum(n, 1e12); sum += FreeSpaceCSR(n, 9e6, 1e12); sum += ResistiveWall(n, 9e6, 1e12, 33.0, 1e6, 0.0, 0.015);
         chk("sum", sum);
         // absolute scale (C16 "correctly scaled"), independent double-precision oracles from the textbook formulas
